@@ -64,19 +64,25 @@ func vpC13_O1() {
 }
 
 // C13-O2 (three squares, table up to 16): every true statement m >= bound or
-// m <= bound whose difference is inside the table is provable, verifies and
-// is reported as proven.
+// m <= bound whose difference is inside the table (0..16) is provable, verifies
+// and is reported as proven; the first difference outside it is refused with an
+// error (no panic).
 func vpC13_O2() {
 	pk, sk := vpKeys(0, 3, 1024, false)
 	cred := vpCredential(pk, sk, "a", 1, 256)
 	m := cred.Attributes[1]
 	sign := 1 - 2*vpChoose("neg", 2)
-	delta := vpIntRange("delta", 0, 4) // |m - bound|, all inside the table
+	delta := vpIntRange("delta", 0, 18) // |m - bound|: the whole table and the first values outside it
 	bound := new(big.Int).Sub(m, big.NewInt(int64(sign*delta)))
 	vpAssume(bound.Sign() >= 0)
 	stmt := &rangeproof.Statement{Sign: sign, Factor: 1, Bound: bound, Splitter: vpSquaresTable()}
 	ctx, nonce := vpBigBits("ctx", 256), vpBigBits("nonce", 80)
 	proof, err := cred.CreateDisclosureProof(nil, map[int][]*rangeproof.Statement{1: {stmt}}, false, ctx, nonce)
+	// (m <= bound is proven as 4m <= 4*bound-2, which shifts the table by one for Sign = -1)
+	if (sign == 1 && delta >= 17) || (sign == -1 && delta >= 18) {
+		vpAssert("a difference outside the table is refused with an error", err != nil && proof == nil)
+		return
+	}
 	vpAssert("true three-square statement is provable", err == nil && proof != nil)
 	if err != nil {
 		return
